@@ -249,6 +249,9 @@ struct ThreadCtx {
 };
 
 #define LIB(x) do { ++t_in_lib; x; --t_in_lib; } while (0)
+// in a third of the operations the packet is corrupted on its way back, so that the failure paths of
+// decryption (which receive the same shared const keys) run concurrently too
+#define TAMPER() do { if (tamper && clen) T.out[(sd >> 8) % clen] ^= (uint8_t)(1u << (sd & 7)); } while (0)
 
 static const int NOPK = 22;
 static const char *opk_name[NOPK] = {"hash", "hasha", "xof", "aead128", "aead128a", "aead80pq", "inc128", "siv128", "siv80pq", "isap128_shared",
@@ -262,6 +265,7 @@ static uint64_t run_op(ThreadCtx &T, const Op &op)
     uint64_t sd = op.u(3);
     Shared &S = *T.sh;
     bool use_shared_const = op.u(4) & 1;
+    bool tamper = (op.u(4) & 6) == 2;
     // private inputs
     alignas(64) static __thread uint8_t msg[256], ad[64];
     fill_bytes(msg, mlen, sd ^ 1);
@@ -277,17 +281,17 @@ static uint64_t run_op(ThreadCtx &T, const Op &op)
     case 0: LIB(ascon_hash(T.out, m, mlen)); clen = 32; break;
     case 1: LIB(ascon_hasha(T.out, m, mlen)); clen = 32; break;
     case 2: { ascon_xof_state_t x; LIB(ascon_xof_init(&x); ascon_xof_absorb(&x, m, mlen); ascon_xof_squeeze(&x, T.out, 40); ascon_xof_free(&x)); clen = 40; break; }
-    case 3: LIB(ascon128_aead_encrypt(T.out, &clen, m, mlen, a, adlen, n, k); r = ascon128_aead_decrypt(T.tmp, &plen, T.out, clen, a, adlen, n, k)); break;
-    case 4: LIB(ascon128a_aead_encrypt(T.out, &clen, m, mlen, a, adlen, n, k); r = ascon128a_aead_decrypt(T.tmp, &plen, T.out, clen, a, adlen, n, k)); break;
-    case 5: LIB(ascon80pq_aead_encrypt(T.out, &clen, m, mlen, a, adlen, n, k); r = ascon80pq_aead_decrypt(T.tmp, &plen, T.out, clen, a, adlen, n, k)); break;
+    case 3: LIB(ascon128_aead_encrypt(T.out, &clen, m, mlen, a, adlen, n, k)); TAMPER(); LIB(r = ascon128_aead_decrypt(T.tmp, &plen, T.out, clen, a, adlen, n, k)); break;
+    case 4: LIB(ascon128a_aead_encrypt(T.out, &clen, m, mlen, a, adlen, n, k)); TAMPER(); LIB(r = ascon128a_aead_decrypt(T.tmp, &plen, T.out, clen, a, adlen, n, k)); break;
+    case 5: LIB(ascon80pq_aead_encrypt(T.out, &clen, m, mlen, a, adlen, n, k)); TAMPER(); LIB(r = ascon80pq_aead_decrypt(T.tmp, &plen, T.out, clen, a, adlen, n, k)); break;
     case 6: { ascon128_state_t st; LIB(ascon128_aead_init(&st, n, k); ascon128_aead_start(&st, a, adlen); ascon128_aead_encrypt_block(&st, m, T.out, mlen / 2); ascon128_aead_encrypt_block(&st, m + mlen / 2, T.out + mlen / 2, mlen - mlen / 2); ascon128_aead_encrypt_finalize(&st, T.out + mlen); ascon128_aead_free(&st)); clen = mlen + 16; break; }
-    case 7: LIB(ascon128_siv_encrypt(T.out, &clen, m, mlen, a, adlen, n, k); r = ascon128_siv_decrypt(T.tmp, &plen, T.out, clen, a, adlen, n, k)); break;
-    case 8: LIB(ascon80pq_siv_encrypt(T.out, &clen, m, mlen, a, adlen, n, k); r = ascon80pq_siv_decrypt(T.tmp, &plen, T.out, clen, a, adlen, n, k)); break;
-    case 9: LIB(ascon128_isap_aead_encrypt(T.out, &clen, m, mlen, a, adlen, n, &S.ik128); r = ascon128_isap_aead_decrypt(T.tmp, &plen, T.out, clen, a, adlen, n, &S.ik128)); break;
-    case 10: LIB(ascon128a_isap_aead_encrypt(T.out, &clen, m, mlen, a, adlen, n, &S.ik128a); r = ascon128a_isap_aead_decrypt(T.tmp, &plen, T.out, clen, a, adlen, n, &S.ik128a)); break;
-    case 11: LIB(ascon80pq_isap_aead_encrypt(T.out, &clen, m, mlen, a, adlen, n, &S.ik80); r = ascon80pq_isap_aead_decrypt(T.tmp, &plen, T.out, clen, a, adlen, n, &S.ik80)); break;
-    case 12: LIB(ascon128_masked_aead_encrypt(T.out, &clen, m, mlen, a, adlen, n, &S.mk128); r = ascon128_masked_aead_decrypt(T.tmp, &plen, T.out, clen, a, adlen, n, &S.mk128)); break;
-    case 13: LIB(ascon80pq_masked_aead_encrypt(T.out, &clen, m, mlen, a, adlen, n, &S.mk160); r = ascon80pq_masked_aead_decrypt(T.tmp, &plen, T.out, clen, a, adlen, n, &S.mk160)); break;
+    case 7: LIB(ascon128_siv_encrypt(T.out, &clen, m, mlen, a, adlen, n, k)); TAMPER(); LIB(r = ascon128_siv_decrypt(T.tmp, &plen, T.out, clen, a, adlen, n, k)); break;
+    case 8: LIB(ascon80pq_siv_encrypt(T.out, &clen, m, mlen, a, adlen, n, k)); TAMPER(); LIB(r = ascon80pq_siv_decrypt(T.tmp, &plen, T.out, clen, a, adlen, n, k)); break;
+    case 9: LIB(ascon128_isap_aead_encrypt(T.out, &clen, m, mlen, a, adlen, n, &S.ik128)); TAMPER(); LIB(r = ascon128_isap_aead_decrypt(T.tmp, &plen, T.out, clen, a, adlen, n, &S.ik128)); break;
+    case 10: LIB(ascon128a_isap_aead_encrypt(T.out, &clen, m, mlen, a, adlen, n, &S.ik128a)); TAMPER(); LIB(r = ascon128a_isap_aead_decrypt(T.tmp, &plen, T.out, clen, a, adlen, n, &S.ik128a)); break;
+    case 11: LIB(ascon80pq_isap_aead_encrypt(T.out, &clen, m, mlen, a, adlen, n, &S.ik80)); TAMPER(); LIB(r = ascon80pq_isap_aead_decrypt(T.tmp, &plen, T.out, clen, a, adlen, n, &S.ik80)); break;
+    case 12: LIB(ascon128_masked_aead_encrypt(T.out, &clen, m, mlen, a, adlen, n, &S.mk128)); TAMPER(); LIB(r = ascon128_masked_aead_decrypt(T.tmp, &plen, T.out, clen, a, adlen, n, &S.mk128)); break;
+    case 13: LIB(ascon80pq_masked_aead_encrypt(T.out, &clen, m, mlen, a, adlen, n, &S.mk160)); TAMPER(); LIB(r = ascon80pq_masked_aead_decrypt(T.tmp, &plen, T.out, clen, a, adlen, n, &S.mk160)); break;
     case 14: LIB(ascon_prf(T.out, 24, m, mlen, k); ascon_hmac(T.out + 24, k, 20, m, mlen); r = ascon_mac_verify(T.out, m, mlen, k)); clen = 56; break;
     case 15: LIB(ascon_kmac(k, 16, m, mlen, a, adlen, T.out, (mlen & 1) ? 32 : 24); r = ascon_hkdf(T.out + 32, 40, k, 20, a, adlen, m, mlen % 20); ascon_kdf(T.out + 72, 16, k, 16, a, adlen % 9);
                  ascon_pbkdf2(T.out + 88, 24, m, mlen % 13, a, adlen % 11, 2); ascon_pbkdf2_hmac(T.out + 112, 8, m, mlen % 13, a, adlen % 11, 1)); clen = 120; break;
@@ -372,7 +376,7 @@ struct ThreadsWorld : World {
             int nops = 1 + (int)r.below(thorough ? 6 : 4);
             for (int i = 0; i < nops; ++i) {
                 int kind = focus >= 0 && r.chance(2, 3) ? focus : (int)r.below(NOPK);
-                pl.add("op", {t, kind, (int64_t)r.pickv({0, 1, 7, 8, 9, 16, 33, 100}), (int64_t)r.pickv({0, 1, 8, 17}), (int64_t)(r.next() >> 1), (int64_t)r.below(2)});
+                pl.add("op", {t, kind, (int64_t)r.pickv({0, 1, 7, 8, 9, 16, 33, 100}), (int64_t)r.pickv({0, 1, 8, 17}), (int64_t)(r.next() >> 1), (int64_t)r.below(8)});
             }
         }
     }
